@@ -33,6 +33,17 @@ def run(ctx, replay):
     ctx.extra["events"] = summ["events"]
     # T: the real broker takes exactly the steps of the model at the code's values
     vcore.validate_all(ctx, "BrokerViewTrace", "BrokerViewTrace_conf.cfg", tr, dfs=True)
+    # leg R: orders of the three watchers' events chosen by TLC (BrokerViewGen), executed against the real code
+    gen = ctx.generate_behaviours("BrokerViewGen", "BrokerViewGen.cfg", 400 if thorough else 60, 100)
+    gpath = os.path.join(ctx.scratch, "bv-gen.json")
+    with open(gpath, "w") as f:
+        json.dump(gen, f)
+    trg = os.path.join(ctx.scratch, "brokerview-gen.ndjson")
+    gsumm, rc, _ = ctx.run_vdrive(["brokerview", "--histories", 0, "--probes=false", "--scripts", gpath, "--out", trg], timeout=2400)
+    for u in gsumm["unresolved"]:
+        raise vcore.Unresolved("brokerview driver (generated behaviours): %s" % u)
+    ctx.extra["generated_behaviours_replayed"] = len(gen)
+    vcore.validate_all(ctx, "BrokerViewTrace", "BrokerViewTrace_conf.cfg", trg, dfs=True)
     # ... and does NOT behave like the repaired design (the probe histories must be rejected there: the observations
     # are observations about the real code, not artefacts of the model)
     lines = vcore.read_lines(tr)
@@ -85,7 +96,9 @@ def run(ctx, replay):
                 out[i] = json.dumps(d, separators=(",", ":")) + "\n"
                 return out
         return None
-    acc = ctx.accepted_path
+    acc = os.path.join(ctx.scratch, "bv-acc.ndjson")
+    with open(acc, "w") as f:
+        f.write("".join(lines))
     vcore.corrupt_selftest(ctx, "BrokerViewTrace", "BrokerViewTrace_conf.cfg", acc, wrong_leader, "a shard is planned through another node")
     vcore.corrupt_selftest(ctx, "BrokerViewTrace", "BrokerViewTrace_conf.cfg", acc, lost_shard, "an online shard is missing from the plan")
     vcore.corrupt_selftest(ctx, "BrokerViewTrace", "BrokerViewTrace_conf.cfg", acc, phantom_channel, "a database without channel is reported writable")
